@@ -236,7 +236,9 @@ func genOp(t *rapid.T, label string) COp {
 			}
 		}
 	case "readslot", "attestslot":
-		o.Slot = rapid.SampledFrom([]string{"9a", "9e", "f9", "", "82", "9a 9c", "日本", "-s", "a\x00b", strings.Repeat("s", 100)}).Draw(t, label+"S")
+		o.Slot = rapid.SampledFrom([]string{"9a", "9e", "f9", "", "82", "9a 9c", "日本", "-s", "a\x00b", strings.Repeat("s", 100),
+			// line structure inside the name (the reply travels as text): a line feed followed by text, CR LF, a colon, a PEM-looking name
+			"9a\nbackup", "\n9e", "9a\r\nx: y", "9a: b", "9a\n", "-----BEGIN CERTIFICATE-----"}).Draw(t, label+"S")
 		o.CertIdx = rapid.IntRange(0, 5).Draw(t, label+"CI")
 	case "wait":
 		o.Code = rapid.IntRange(0, 255).Draw(t, label+"W")
